@@ -36,6 +36,7 @@ type TypeX struct {
 	Src   string // source text
 	Under *TypeX // named
 	Bytes bool   // slice of bytes ([]byte / []uint8)
+	Elem  string // Go expression of the i-th element put into maps / channels of this type ("" = the int i)
 	Alias string // name of an alias declaration `type A = <Src>` through which the field is declared (identical type)
 }
 
@@ -347,9 +348,16 @@ func collVal(t *TypeX, isNil bool, n int, content string) *SVal {
 	case u.Kind == "slice":
 		v.GoLit = fmt.Sprintf("make(%s, %d)", t.Src, n)
 	case u.Kind == "map":
-		v.GoLit = fmt.Sprintf("func() %s { m := make(%s); for i := 0; i < %d; i++ { m[strconv.Itoa(i)] = i }; return m }()", t.Src, t.Src, n)
+		v.GoLit = fmt.Sprintf("func() %s { m := make(%s); for i := 0; i < %d; i++ { m[strconv.Itoa(i)] = %s }; return m }()", t.Src, t.Src, n, elemLit(u))
 	}
 	return v
+}
+
+func elemLit(u *TypeX) string {
+	if u.Elem != "" {
+		return u.Elem
+	}
+	return "i"
 }
 
 func chanVal(t *TypeX, isNil bool, n, capacity int) *SVal {
@@ -357,7 +365,7 @@ func chanVal(t *TypeX, isNil bool, n, capacity int) *SVal {
 	if isNil {
 		v.GoLit = t.Src + "(nil)"
 	} else {
-		v.GoLit = fmt.Sprintf("func() %s { c := make(%s, %d); for i := 0; i < %d; i++ { c <- i }; return c }()", t.Src, t.Src, capacity, n)
+		v.GoLit = fmt.Sprintf("func() %s { c := make(%s, %d); for i := 0; i < %d; i++ { c <- %s }; return c }()", t.Src, t.Src, capacity, n, elemLit(t.Underlying()))
 	}
 	return v
 }
